@@ -12,7 +12,7 @@ def check(run, record_expected=False):
         return ded
     for func, items in sync_ded.c11_items():
         deductive.add_evaluated(run, ded, items, func)
-    results = S.run_projects(run.tier, newline_variants=(True, False))
+    results = S.run_projects(run.tier, newline_variants=(True, False, "blank"))
     n_ok = S.report(run, results, "preserve", "keep")
     cov = C09._coverage(ded, results, n_ok,
                         "DEDUCTIVE: RewriteAtQuery.generic_visit replaces exactly the node at the searched location, once (contract), emit.file appends on a "
